@@ -78,3 +78,12 @@ CASES += [
     {"name": "mock absorption calculator reads the axis in the current units (the repaired defect)", "kind": "mutant", "rule": "C11-G", "edits": [
         ("quantarhei/spectroscopy/mockabscalculator.py", "        with energy_units(\"int\"):\n            o1 = self.oa1.data \n", "        o1 = self.oa1.data \n", 1)]},
 ]
+
+CASES += [
+    {"name": "cross-correlation terms summed over the upper triangle only (seeded change of round 5)", "kind": "mutant", "rule": "C11-J", "edits": [
+        (ABSC, "            for ll in range(Na):\n            \n                #nll = AG.monomers[ll].egcf_mapping[0]\n                \n                ct += kap[kk]*kap[ll]*cfm.get_coft(kk,ll)",
+               "            ct += kap[kk]*kap[kk]*cfm.get_coft(kk,kk)\n            for ll in range(kk+1,Na):\n            \n                #nll = AG.monomers[ll].egcf_mapping[0]\n                \n                ct += kap[kk]*kap[ll]*cfm.get_coft(kk,ll)", 1)]},
+    {"name": "upper triangle with the factor two", "kind": "twin", "edits": [
+        (ABSC, "            for ll in range(Na):\n            \n                #nll = AG.monomers[ll].egcf_mapping[0]\n                \n                ct += kap[kk]*kap[ll]*cfm.get_coft(kk,ll)",
+               "            ct += kap[kk]*kap[kk]*cfm.get_coft(kk,kk)\n            for ll in range(kk+1,Na):\n            \n                #nll = AG.monomers[ll].egcf_mapping[0]\n                \n                ct += 2.0*kap[kk]*kap[ll]*cfm.get_coft(kk,ll)", 1)]},
+]
